@@ -68,6 +68,8 @@ func (e *Engine) StructuralObligations(prop string) []*Obligation {
 			ok, detail = e.checkClosureOnly(qualify(sd.Args[0], sd.Pkg), allowed)
 		case "recovers-errors":
 			ok, detail = e.checkRecoversErrors(qualify(sd.Args[0], sd.Pkg))
+		case "uses-param":
+			ok, detail = e.checkUsesParam(qualify(sd.Args[0], sd.Pkg), sd.Args[1])
 		case "passed-only":
 			ok, detail = e.checkPassedOnly(qualify(sd.Args[0], sd.Pkg), sd.Args[1])
 		default:
@@ -344,4 +346,27 @@ func (e *Engine) checkPassedOnly(key, callee string) (bool, string) {
 		return false, "closure is never passed to " + callee
 	}
 	return true, "only use: argument of " + callee
+}
+
+// checkUsesParam: the named parameter of the function has at least one use in its body (a looked-up object that is then
+// ignored - the function acting on something else instead - fails this).
+func (e *Engine) checkUsesParam(key, name string) (bool, string) {
+	fn := e.FuncByKey(key)
+	if fn == nil || fn.Blocks == nil {
+		return false, "function not found"
+	}
+	for _, p := range fn.Params {
+		if p.Name() != name {
+			continue
+		}
+		if p.Referrers() != nil {
+			for _, r := range *p.Referrers() {
+				if _, dbg := r.(*ssa.DebugRef); !dbg {
+					return true, "parameter " + name + " is used"
+				}
+			}
+		}
+		return false, "parameter " + name + " is never used: the function does not act on it"
+	}
+	return false, "no parameter " + name
 }
